@@ -51,6 +51,8 @@ class Cfg:
         self.ipc_write = IPC_WRITE
         self.stream_trait = 'futures_core::stream::Stream'
         self.floors = True
+        self.batch_type = 'RecordBatch'
+        self.emission_ctors = (('core::result::Result', 'Ok'),)
         self.__dict__.update(kw)
 
 
@@ -285,6 +287,91 @@ def rule_record_once(ctx, cfg=REAL):
     return R
 
 
+
+def _emission(v):
+    """('no'|'val'|'unk', leaf tag) — does the abstract return value carry a produced batch (Ready(Some(Ok(x))) / Break(..Ok(x)) / Ok(Some(x)))?"""
+    v = strip(v)
+    if isinstance(v, A):
+        if v.name in ('Pending', 'None', 'Err'):
+            return ('no', None)
+        if v.name in ('Ready', 'Some', 'Ok', 'Break', 'Continue'):
+            if not v.fields:
+                return ('no', None)
+            return _emission(v.fields[0][1])
+        return ('unk', None)
+    if isinstance(v, T):
+        for x in v.items:
+            r = _emission(x)
+            if r[0] != 'no':
+                return r
+        return ('no', None)
+    if isinstance(v, U) and v.tag:
+        return ('val', v.tag)
+    return ('unk', None)
+
+
+def rule_record_consistent(ctx, R, cfg=REAL, rule='record-consistent'):
+    """Contradiction rule (a function that records the batch it hands out on one path believes it owns the recording): in every
+    function whose return type carries a RecordBatch and that records on some batch-emitting path, every path that builds and returns
+    a batch records it too (directly, through a callee that records what it returns, or the stream has no metrics on that path)."""
+    f = ctx.facts
+    n = 0
+    cands = set()
+    for p in R.prims:
+        for c in f.callers_of(p):
+            if in_crates(c, cfg) and c not in R.prims:
+                cands.add(c)
+    # callers of functions that record what they return are candidates too (one level)
+    for c in list(cands):
+        if R.returns_recorded(c):
+            for u in f.callers_of(c):
+                if in_crates(u, cfg):
+                    cands.add(u)
+    for d in sorted(cands):
+        sg = f.sig(d)
+        if not sg or cfg.batch_type not in sg[0]:
+            continue
+        tr = R.traces(d)
+        if tr is None or isinstance(tr[1], Exception):
+            continue
+        rec, outs = tr
+        recd, unrec = 0, []
+        for o in outs:
+            kind, tag = _emission(o.ret)
+            if kind != 'val':
+                continue
+            evs = list(o.events)
+            sm = R.site_map(o)
+            ntag = norm_tag(tag)
+            m = re.match(r'(?:try:)?call:([A-Za-z_0-9]+)@(\d+)', ntag)
+            head = sm.get((m.group(1), m.group(2))) if m else None
+            toks = _TOK.findall(tag)
+            recorded = head in R.prims or any(sm.get(t) in R.prims for t in toks) or \
+                any(norm_tag(x) == ntag for _, val, _l in R.record_events(o) for x in leaves(val)) or \
+                (head is not None and in_crates(head, cfg) and R.returns_recorded(head))
+            if recorded:
+                recd += 1
+                continue
+            if any(e[0] == 'variant' and e[3] == 'None' and 'metrics' in (e[1] or '') for e in evs):
+                continue            # the stream carries no metrics on this path
+            built_here = any(e[0] == 'agg' and (e[1], e[2]) in cfg.emission_ctors for e in evs)
+            # only batches the function obtained itself (a binding, a field, an in-crate call, the payload it took out of an inner poll and wrapped
+            # again) — values that come out of a std combinator are not decided here
+            is_poll = head is not None and head.rsplit('::', 1)[-1].startswith('poll')
+            if built_here and (head is None or in_crates(head, cfg) or is_poll):
+                unrec.append(ntag)
+        if not recd:
+            continue
+        n += 1
+        ctx.analysed_fns.add(d)
+        if unrec:
+            ctx.fail(rule, d, ctx.loc(rec), 'this function records the batch it hands out on %d path(s) but also builds and returns a batch (%s) on %d path(s) '
+                     'without recording it: rows that leave through that path are missing from output_rows' % (recd, unrec[0][:60], len(unrec)),
+                     key='%s|%s' % (rule, d))
+        else:
+            ctx.ok(rule, d, sample={'fn': d, 'recorded_emission_paths': recd} if n <= 6 else None)
+    return n
+
 def registration_sites(f, cfg=REAL):
     """functions that register output metrics: BaselineMetrics::new and the *Metrics::new wrappers around it"""
     wr = {c for c in f.callers_of(cfg.bm_new) if c.endswith('Metrics::new')}
@@ -431,7 +518,9 @@ def rule_spilled_rows(ctx, cfg=REAL):
 
 def run(ctx):
     rule_owner_records(ctx)
-    rule_record_once(ctx)
+    R = rule_record_once(ctx)
+    nrc = rule_record_consistent(ctx, R)
+    ctx.floor('record-consistent', 'functions that record on a batch-emitting path', nrc, 10)
     rule_one_recorder_per_path(ctx)
     rule_spilled_rows(ctx)
     # selftest: seeded violations in the selftest crate
@@ -446,15 +535,21 @@ def selftest(ctx, probe):
     SM = 'dfscan_selftest::metrics::'
     cfg = Cfg(bm=SM + 'Bm', record_poll=SM + 'Bm::record_poll', record_output_suffix='metrics::RecOut>::record_output',
               bm_new=SM + 'Bm::new', count_add=SM + 'Count::add', observed_new=SM + 'Observed::new', crates=('dfscan_selftest',),
-              append=SM + 'Spill::append_batch', ipc_write=SM + 'Ipc::write', stream_trait=SM + 'Stream', floors=False)
+              append=SM + 'Spill::append_batch', ipc_write=SM + 'Ipc::write', stream_trait=SM + 'Stream', floors=False,
+              batch_type='metrics::Batch', emission_ctors=((SM + 'Poll', 'Ready'), ('core::option::Option', 'Some')))
     rule_owner_records(probe, cfg)
     ctx.selftest('owner-records detects a stream that owns metrics and never records (Silent), accepts Observed-wrapped (Wrapped)',
                  any(v['key'] == 'owner-records|' + SM + 'Silent' for v in probe.viol) and not any('Wrapped' in v['key'] or 'Good' in v['key'] for v in probe.viol))
     n0 = len(probe.viol)
-    rule_record_once(probe, cfg)
+    R2 = rule_record_once(probe, cfg)
     keys = [v['key'] for v in probe.viol[n0:]]
     ctx.selftest('record-once detects outer record_poll over a recording inner (Dbl) and a value recorded twice on one path (Twice), not Good',
                  any('Dbl' in k for k in keys) and any('Twice' in k for k in keys) and not any('Good' in k for k in keys))
+    n0 = len(probe.viol)
+    rule_record_consistent(probe, R2, cfg, rule='st-consistent')
+    keys = [v['key'] for v in probe.viol[n0:]]
+    ctx.selftest('record-consistent detects a function that records one emission arm and forgets another (Spilly::bad_poll_inner), accepts good_poll_inner',
+                 any('bad_poll_inner' in k for k in keys) and not any('good_poll_inner' in k for k in keys))
     n0 = len(probe.viol)
     rule_one_recorder_per_path(probe, cfg)
     keys = [v['key'] for v in probe.viol[n0:]]
